@@ -107,7 +107,7 @@ def words(s):
     return s.split()
 
 
-def run_slot(slot, text, gen_texts, identity, sigbase, source='memory'):
+def run_slot(slot, text, gen_texts, identity, sigbase, source='memory', dialect='smiV2'):
     sid, kind, field, jkey, pacc, gated = slot
     decls = build(kind, field, text)
     mod = refir.finish_module({'name': 'TEST-MIB', 'decls': decls})
@@ -119,7 +119,7 @@ def run_slot(slot, text, gen_texts, identity, sigbase, source='memory'):
     outcome = []
     subject = 'Subject' if kind == 'tc' else 'subject'
     for backend in ('json', 'pysnmp'):
-        parser = env.shared_parser('smiV2')
+        parser = env.shared_parser(dialect)
         parser.reset()
         res, written = env.compile_set({'TEST-MIB': src}, ['TEST-MIB'], codegen=backend, dialect=parser, source=source, **opts)
         st = res.get('TEST-MIB')
@@ -194,17 +194,25 @@ class Slots(object):
     def blocks(self, tier):
         return [{'slot': i} for i in range(len(SLOTS))]
 
+    # texts with layout in them, for the second and third dialect (the relaxed dialects have productions of their own)
+    LAYOUT_TEXTS = ('double-space', 'multiline', 'tab', 'crlf')
+
     def cases(self, block, tier):
         for t in range(len(TEXTS)):
             for gt in (0, 1):
                 for ident in (0, 1):
                     yield {'slot': block['slot'], 't': t, 'gt': gt, 'id': ident}
+            if TEXTS[t][0] in self.LAYOUT_TEXTS:
+                for dialect in ('smiV1', 'smiV1Relaxed'):
+                    for ident in (0, 1):
+                        yield {'slot': block['slot'], 't': t, 'gt': 1, 'id': ident, 'dialect': dialect}
 
     def run_case(self, case):
         slot = SLOTS[case['slot']]
         tname, text = TEXTS[case['t']]
-        sig = 'C15|%s|%s|%s' % (slot[0], tname, 'identity' if case['id'] else 'default')
-        return run_slot(slot, text, bool(case['gt']), bool(case['id']), sig)
+        sig = 'C15|%s|%s|%s%s' % (slot[0], tname, 'identity' if case['id'] else 'default',
+                                  '|' + case['dialect'] if case.get('dialect') else '')
+        return run_slot(slot, text, bool(case['gt']), bool(case['id']), sig, dialect=case.get('dialect', 'smiV2'))
 
 
 class Pairs(object):
